@@ -1417,6 +1417,15 @@ func TestReplay(t *testing.T) {
 		}
 		return
 	}
+	var tc TenantCase
+	if err := vstat.LoadReplay(p, &tc); err == nil && len(tc.Tenants) > 0 { // a two-tenant case
+		if _, err := runTenants(tc); errors.Is(err, errInfra) {
+			t.Skipf("%v", err)
+		} else if err != nil && !errors.Is(err, errSkip) {
+			t.Fatalf("%v", err)
+		}
+		return
+	}
 	var c Case
 	if err := vstat.LoadReplay(p, &c); err != nil {
 		t.Fatal(err)
